@@ -234,3 +234,44 @@ Example utf8_example :
   utf8 [97; 55296] = Err UnicodeError.
 Proof. exact Lemmas.Seeds.utf8_example. Qed.
 Print Assumptions utf8_example.
+
+(* ===== linked to the concrete codec models ===== *)
+(* The Electrum-v1 seed generator above takes the mnemonic decoder as a parameter ("another property models those
+   codecs").  Here it is THE decoder of C17 (Model/ElectrumV1Mnemonic.v over the regenerated 1626-word list, in its
+   property-conformant and its current form), and the C17 decode-after-encode / acceptance / error theorems are
+   composed with the seed definition.  SHA-256 is the only oracle left.  Likewise the UTF-8 encoder of this property
+   is the same function as the one proved against RFC 3629 under C19 (Props/C19.v [utf8_models_agree]). *)
+From BU Require Import Model.ChunkMnemonic Model.ElectrumV1Mnemonic.
+From BU Require Model.SubstrateScale.
+From BU Require Lemmas.MnemC17 Lemmas.LinkSeeds Lemmas.LinkUtf8.
+
+Notation ev1_seed_c := Lemmas.LinkSeeds.ev1_seed_c.
+Notation ev1_decoder := Lemmas.LinkSeeds.ev1_decoder.
+
+(* entropy -> Electrum v1 mnemonic -> seed: the seed is the 100000-fold stretched hex of the entropy *)
+Theorem electrum_v1_seed_of_entropy : forall sha256 conformant b, bytes_ok b -> length b = 16%nat ->
+  exists ws, Lemmas.MnemC17.ev1_encode b = Ok ws /\ length ws = 12%nat /\
+    ev1_seed_c sha256 conformant ws = Ok (ev1_stretch sha256 (hexlify b) ev1_hash_itr_num).
+Proof. exact Lemmas.LinkSeeds.ev1_seed_of_entropy. Qed.
+Print Assumptions electrum_v1_seed_of_entropy.
+
+Theorem electrum_v1_seed_iff_accepted : forall sha256 conformant ws, (forall x, length (sha256 x) = 32%nat) ->
+  ((exists seed, ev1_seed_c sha256 conformant ws = Ok seed) <-> (exists b, ev1_decoder conformant ws = Ok b)) /\
+  (forall seed, ev1_seed_c sha256 conformant ws = Ok seed -> length seed = 32%nat).
+Proof. exact Lemmas.LinkSeeds.ev1_seed_ok_iff. Qed.
+Print Assumptions electrum_v1_seed_iff_accepted.
+
+Theorem electrum_v1_seed_errors_linked : forall sha256 conformant ws e,
+  ev1_seed_c sha256 conformant ws = Err e -> e = ValueError.
+Proof. exact Lemmas.LinkSeeds.ev1_seed_errors. Qed.
+Print Assumptions electrum_v1_seed_errors_linked.
+
+(* this property's UTF-8 encoder is the RFC 3629 encoder of C19, hence injective on Python strings *)
+Theorem utf8_is_rfc3629_encoder : forall s, Forall (fun c => c < 1114112) s -> utf8 s = SubstrateScale.utf8_encode s.
+Proof. exact Lemmas.LinkUtf8.seeds_utf8_eq. Qed.
+Print Assumptions utf8_is_rfc3629_encoder.
+
+Theorem utf8_injective_linked : forall s1 s2 b, Forall (fun c => c < 1114112) s1 -> Forall (fun c => c < 1114112) s2 ->
+  utf8 s1 = Ok b -> utf8 s2 = Ok b -> s1 = s2.
+Proof. exact Lemmas.LinkUtf8.seeds_utf8_inj. Qed.
+Print Assumptions utf8_injective_linked.
